@@ -8,7 +8,7 @@ PROPS=${@:-C01 C02 C03 C04 C05 C06 C07 C08 C11 C16 C17 C19}
 mkdir -p reports /var/tmp/vsim-det
 OUT=reports/determinism.json; echo "{" > $OUT.tmp; FIRST=1; RC=0
 for P in $PROPS; do
-  BIN=.build/asan/vsim; EXTRA=""; [ $P = C07 ] && { BIN=.build/tsan/vsim; EXTRA="--run-timeout-s 240"; }
+  BIN=.build/asan/vsim; EXTRA="--run-timeout-s 1800"; [ $P = C07 ] && BIN=.build/tsan/vsim
   SEED=${VERIF_SEED:-1}
   $BIN run --property $P --seed $SEED --repeat 2 --workers 16 $EXTRA --verif-dir /var/tmp/vsim-det --evidence /var/tmp/vsim-det/a.json > /var/tmp/vsim-det/a.log 2>&1
   $BIN run --property $P --seed $SEED --workers 5 $EXTRA --verif-dir /var/tmp/vsim-det --evidence /var/tmp/vsim-det/b.json > /var/tmp/vsim-det/b.log 2>&1
